@@ -6,6 +6,7 @@ import (
 	"go/types"
 	"os"
 	"regexp"
+	"sort"
 	"strings"
 
 	"golang.org/x/tools/go/ssa"
@@ -671,6 +672,36 @@ func (fr *frame) checkGuards(st *PState, qname string, sig *types.Signature, arg
 			for name, v := range fr.namedLocals(st, blk, at) {
 				if _, taken := vars[name]; !taken {
 					vars[name] = v
+				}
+			}
+			// loop-carried values of the loops the call site sits in (rangeindex, counters), innermost first
+			type encl struct {
+				h    *ssa.BasicBlock
+				size int
+			}
+			var outs []encl
+			for h, body := range fr.loopBody {
+				if h == blk || body[blk] {
+					outs = append(outs, encl{h, len(body)})
+				}
+			}
+			sort.Slice(outs, func(i, j int) bool {
+				if outs[i].size != outs[j].size {
+					return outs[i].size < outs[j].size
+				}
+				return outs[i].h.Index < outs[j].h.Index
+			})
+			for _, o := range outs {
+				for _, ins := range o.h.Instrs {
+					phi, ok := ins.(*ssa.Phi)
+					if !ok {
+						break
+					}
+					if v, ok := st.env[phi]; ok && phi.Comment != "" {
+						if _, taken := vars[phi.Comment]; !taken {
+							vars[phi.Comment] = v
+						}
+					}
 				}
 			}
 		}
